@@ -22,8 +22,12 @@ val compOpp : comparison -> comparison
 
 val add : nat -> nat -> nat
 
+val sub : nat -> nat -> nat
+
 module Nat :
  sig
+  val eqb : nat -> nat -> bool
+
   val leb : nat -> nat -> bool
 
   val ltb : nat -> nat -> bool
@@ -232,6 +236,10 @@ type bytes = n list
 
 val beq : bytes -> bytes -> bool
 
+val be_dec_acc : n -> bytes -> n
+
+val be_dec : bytes -> n
+
 val be_enc : nat -> n -> bytes
 
 val zbyte : z -> n
@@ -252,15 +260,29 @@ val gd : guard list -> nat -> guard
 
 val holds : guard -> z -> bool
 
+val sw : z list list list -> nat -> nat -> z list
+
+val zmem : z -> z list -> bool
+
 type 'a res =
 | Ok of 'a
 | Err of n
 | Panic
 | OutOfFuel
 
+val e_short : n
+
+val e_badlen : n
+
+val e_attr_short : n
+
+val e_attr_len : n
+
 val e_attr_big : n
 
 val e_pkt_big : n
+
+val e_unknown_code : n
 
 val remove_at : nat -> 'a1 list -> 'a1 list
 
@@ -270,13 +292,29 @@ val g_AttributesEncodedLen : guard list
 
 val g_Attributes_encodeTo : guard list
 
+val g_IsAuthenticRequest : guard list
+
+val sW_IsAuthenticRequest : z list list list
+
+val g_IsAuthenticResponse : guard list
+
+val sW_Packet_Encode : z list list list
+
 val g_Packet_MarshalBinary : guard list
+
+val g_Parse : guard list
+
+val g_ParseAttributes : guard list
 
 type avp = { atype : z; aval : bytes }
 
 type attrs = avp list
 
 val zlen : 'a1 list -> z
+
+val parse_attrs_f : nat -> bytes -> attrs res
+
+val parse_attrs : bytes -> attrs res
 
 val add0 : z -> bytes -> attrs -> attrs
 
@@ -305,7 +343,24 @@ val enc_len : attrs -> nat res
 type packet = { code : z; ident : n; auth : bytes; secret : bytes;
                 pattrs : attrs }
 
+val parse : bytes -> bytes -> packet res
+
 val marshal : packet -> bytes res
+
+val zeros16 : bytes
+
+val put_auth : bytes -> bytes -> bytes
+
+val encode : (bytes -> bytes) -> packet -> bytes res
+
+val is_authentic_response :
+  (bytes -> bytes) -> bytes -> bytes -> bytes -> bool
+
+val is_authentic_request : (bytes -> bytes) -> bytes -> bytes -> bool
+
+val response : packet -> z -> packet
+
+val new_packet : z -> bytes -> bytes -> packet res
 
 val is_key : z -> avp -> bool
 
@@ -333,6 +388,40 @@ type op =
 | OLookup of z
 
 val spec_step : attrs -> op -> attrs * bytes option option
+
+val length_field : bytes -> nat
+
+val spec_tlv_dec_f : nat -> bytes -> attrs res
+
+val spec_tlv_dec : bytes -> attrs res
+
+val spec_parse : bytes -> bytes -> ((((z * n) * bytes) * bytes) * attrs) res
+
+val spec_value_fits : avp -> bool
+
+val spec_marshal : z -> n -> bytes -> attrs -> bytes res
+
+val rfc_reply_codes : z list
+
+val rfc_hashed_request_codes : z list
+
+val rfc_verbatim_codes : z list
+
+val covered : bytes -> bytes -> bytes -> bytes
+
+val auth_field : bytes -> bytes
+
+val zero16 : bytes
+
+val spec_put_auth : bytes -> bytes -> bytes
+
+val spec_encode :
+  (bytes -> bytes) -> z -> n -> bytes -> bytes -> attrs -> bytes res
+
+val spec_is_authentic_response :
+  (bytes -> bytes) -> bytes -> bytes -> bytes -> bool
+
+val spec_is_authentic_request : (bytes -> bytes) -> bytes -> bytes -> bool
 
 val md5_mask32 : n
 
@@ -397,7 +486,11 @@ type tok =
 
 val s2b : string -> bytes
 
+val name_is : bytes -> string -> bool
+
 val t_res : 'a1 res -> ('a1 -> tok list) -> tok list
+
+val t_res_s : 'a1 res -> ('a1 -> tok list) -> tok list
 
 val t_attrs : attrs -> tok list
 
@@ -419,6 +512,22 @@ val s_trace : attrs -> op list -> tok list
 
 val run_attrs : bool -> bytes list -> z list -> tok list
 
-val name_is : bytes -> string -> bool
+val t_packet : packet -> tok list
+
+val t_tuple : ((((z * n) * bytes) * bytes) * attrs) -> tok list
+
+val arg_packet : bytes list -> z list -> packet
+
+val b1 : bytes list -> bytes
+
+val b2 : bytes list -> bytes
+
+val b3 : bytes list -> bytes
+
+val z1 : z list -> z
+
+val tbool : bool -> tok list
+
+val dispatch_c01 : bytes -> bytes list -> z list -> tok list option
 
 val dispatch : bytes -> bytes list -> z list -> tok list
